@@ -70,14 +70,20 @@ Definition mem (x : N) (l : list N) : bool := existsb (N.eqb x) l.
 Definition set_add (x : N) (l : list N) : list N := if mem x l then l else x :: l.
 Definition set_del (x : N) (l : list N) : list N := filter (fun y => negb (x =? y)) l.
 
-(* Store::insert_frame: one atomic batch over the three partitions *)
-Definition insert_frame (s : store) (f : frame) : result unit * store :=
+Definition registers (f : frame) : bool := is_ctx_topic (f_topic f) && (f_ctx f =? 0).
+
+(* Store::insert_frame: one atomic batch over the three partitions.
+   [reg = true] is the code after the fix "register an imported xs.context frame
+   immediately"; [reg = false] is the pinned behaviour, kept as a regression witness. *)
+Definition insert_frame_gen (reg : bool) (s : store) (f : frame) : result unit * store :=
   if has_nul (f_topic f) then (Err ErrNul, s)
   else (Ok tt,
         mkStore (kv_put (skey (f_id f)) f (s_stream s))
                 (kv_put (tkey f) tt (s_itopic s))
                 (kv_put (ckey f) tt (s_ictx s))
-                (s_ctxs s) (s_gcq s) (s_now s) (s_bcast s)).
+                (if reg && registers f then set_add (f_id f) (s_ctxs s) else s_ctxs s)
+                (s_gcq s) (s_now s) (s_bcast s)).
+Definition insert_frame := insert_frame_gen true.
 
 Definition get (s : store) (i : N) : option frame := kv_get (skey i) (s_stream s).
 
